@@ -23,8 +23,10 @@ XF += [{"kind": "respell_rids", "style": st, "seed": 4} for st in ("hex", "padde
 XF += [{"kind": "respell_targets", "style": st, "seed": 4} for st in ("abs", "dot", "updown", "mixed")]
 XF += [{"kind": "explicit_internal", "rate": 0.5, "seed": 1}, {"kind": "rewrite_slides", "how": "bool_words"}, {"kind": "rewrite_slides", "how": "strip_tblPr"},
        {"kind": "rewrite_slides", "how": "strip_cell_txBody"}, {"kind": "rewrite_charts", "how": "reverse_idx"}, {"kind": "rewrite_charts", "how": "date1904"},
-       {"kind": "layout_logo", "k": 3, "seed": 1}, {"kind": "rewrite_slides", "how": "hover_links"}]
-SAME_SNAPSHOT = {"respell_rids", "respell_targets", "explicit_internal", "renumber"}
+       {"kind": "layout_logo", "k": 3, "seed": 1}, {"kind": "rewrite_slides", "how": "hover_links"},
+       {"kind": "rewrite_slides", "how": "optional_children"}, {"kind": "rewrite_charts", "how": "optional_children"}, {"kind": "big_blob", "size": 5000, "seed": 1}]
+XF += [{"kind": "respell_package_xml", "style": st, "seed": 2} for st in ("prefixed", "multiline", "utf16", "mixed")]
+SAME_SNAPSHOT = {"respell_rids", "respell_targets", "explicit_internal", "renumber", "respell_package_xml", "big_blob"}
 
 
 def main():
@@ -40,7 +42,7 @@ def main():
                 continue
             n += 1
             rp = refpkg.RefPackage.from_bytes(out)
-            extra = 1 if x["kind"] == "layout_logo" else 0
+            extra = 1 if x["kind"] in ("layout_logo", "big_blob") else 0
             if len(refpkg.closure_problems(rp)) != p0 or len(rp.reachable) != len(rp0.reachable) + extra:
                 print("BROKEN", os.path.basename(f), x)
                 bad += 1
